@@ -711,7 +711,7 @@ where
                 if ended {
                     break;
                 }
-                hints.push((d.len(), d.size_hint()));
+                hints.push(mmv_base::probe::hint_of(&d));
                 match Self::lib(cx, || d.next()) {
                     Ok(Some(k)) => ys.push((KD::kraw(&k), KD::kid(&k))),
                     Ok(None) => ended = true,
@@ -728,7 +728,7 @@ where
             }
             if ended {
                 for _ in 0..3 {
-                    let none = d.next().is_none();
+                    let none = mmv_base::probe::ended_none(&mut d);
                     cx.chk(P10, none, "not-fused", || "drain yielded an item after returning None".into());
                 }
             }
@@ -810,7 +810,7 @@ where
             let pwhich = ((a >> 5) as usize * 5) >> 3;
             let pk = (((a >> 1) & 0x0f) as usize * (n + 2)) >> 4;
             loop {
-                hints.push((it.len(), it.size_hint()));
+                hints.push(mmv_base::probe::hint_of(&it));
                 if ys.len() == cut {
                     pout = Some(probe(cx, KD::NOALLOC, it.clone(), pwhich, pk, N, |k: &KD::K| addr(k)));
                     let c1 = it.clone();
@@ -831,7 +831,7 @@ where
                 }
             }
             for _ in 0..3 {
-                let none = it.next().is_none();
+                let none = mmv_base::probe::ended_none(&mut it);
                 cx.chk(P09, none, "not-fused", || format!("{name} yielded an item after returning None"));
             }
             let total = ys.len();
@@ -903,7 +903,7 @@ where
                 if (steps >= take && end != 1) || ended {
                     break;
                 }
-                hints.push((it.len(), it.size_hint()));
+                hints.push(mmv_base::probe::hint_of(&it));
                 match Self::lib(cx, || it.next()) {
                     Ok(Some(k)) => ys.push((KD::kraw(&k), KD::kid(&k))),
                     Ok(None) => ended = true,
@@ -920,7 +920,7 @@ where
             }
             if ended {
                 for _ in 0..3 {
-                    let none = it.next().is_none();
+                    let none = mmv_base::probe::ended_none(&mut it);
                     cx.chk(P10, none, "not-fused", || "Set::into_iter yielded an item after returning None".into());
                 }
             }
@@ -1612,7 +1612,13 @@ where
     };
     for (i, op) in case.ops.iter().enumerate() {
         e.cx.step = i;
-        e.step(*op);
+        if let Err(payload) = std::panic::catch_unwind(std::panic::AssertUnwindSafe(|| e.step(*op))) {
+            // containers may be half-observed: never touch or drop them again
+            e.poisoned = true;
+            let liar = e.liar;
+            mmv_base::probe::escaped_panic(e.cx, liar, true, payload);
+            break;
+        }
         if e.cx.failed() {
             break;
         }
